@@ -31,7 +31,7 @@ from scipy import sparse as sp
 from .. import gen, ref
 from ..core import Clause, Out, Property
 from ..env import L
-from ..lib import Q, S
+from ..lib import ahash, Q, S
 
 U_ = ref.U
 
@@ -250,6 +250,27 @@ def long_definition_cases(draw, tier):
 
 @st.composite
 def long_spectral_cases(draw, tier):
+    if draw(st.integers(0, 2)) == 0:
+        # prescribed singular vectors: the DOMINANT right (or left) singular vector is orthogonal to the canonical
+        # start vectors of iterative estimators (all ones, e_1), a non-dominant one IS such a vector
+        n = draw(st.sampled_from([66, 70, 80, 130]))
+        m = draw(st.sampled_from([2, 3, 65, 72]))
+        rng = np.random.RandomState(draw(gen.seeds()))
+        kind = draw(st.sampled_from(["alternating", "difference", "random_zero_sum"]))
+        v1 = {"alternating": np.array([(-1.0) ** i for i in range(n)]),
+              "difference": np.concatenate([[1.0, -1.0], np.zeros(n - 2)]),
+              "random_zero_sum": (lambda w: w - w.mean())(rng.standard_normal(n))}[kind]
+        v1 = v1 / np.sqrt(v1 @ v1)
+        v2 = np.ones(n) / np.sqrt(n) if kind != "difference" else np.concatenate([[1.0, 1.0], np.zeros(n - 2)]) / np.sqrt(2.0)
+        Uq = gen.householder(rng.standard_normal((m, 4)))
+        s1, s2 = draw(st.sampled_from([(3.0, 1.0), (2.0, 1.5), (10.0, 0.125)]))
+        A = np.zeros((m, n, 4))
+        for (sv, uu, vv) in ((s1, Uq[:, 0], v1), (s2, Uq[:, 1], v2)):
+            A += sv * ref.qmul(uu[:, None, :], np.stack([vv, 0 * vv, 0 * vv, 0 * vv], axis=-1)[None, :, :])
+        if draw(st.booleans()):
+            A = ref.conjT(A)
+        A = A * 10.0 ** draw(st.sampled_from([0, 0, -6, 6]))
+        return {"A": np.ascontiguousarray(A), "kind": "special_singular_vectors", "pat": kind, "rank_ub": 2}
     c = draw(long_definition_cases(tier))
     A = c["A"]
     return {"A": A, "kind": "pattern", "pat": c["pat"], "rank_ub": min(A.shape[:2])}
@@ -349,14 +370,18 @@ def check_one_inf(out, A, ex):
     u = L.utils
     m, n, _ = A.shape
     AH = ref.conjT(A)
+    # ONE array object serves all the calls, the way a caller evaluates several norms of the same matrix: a norm
+    # must not leave its argument changed for the next one
+    Aq, AHq = Q(A), Q(AH)
+    hA, hAH = ahash(Aq), ahash(AHq)
     calls = {
-        "one": {"matrix_norm(ord=1)": lambda: u.matrix_norm(Q(A), 1),
-                "induced_matrix_norm_1": lambda: u.induced_matrix_norm_1(Q(A)),
-                "matrix_norm(A^H,ord=np.inf)": lambda: u.matrix_norm(Q(AH), np.inf)},
-        "inf": {"matrix_norm(ord=np.inf)": lambda: u.matrix_norm(Q(A), np.inf),
-                "matrix_norm(ord='inf')": lambda: u.matrix_norm(Q(A), "inf"),
-                "induced_matrix_norm_inf": lambda: u.induced_matrix_norm_inf(Q(A)),
-                "matrix_norm(A^H,ord=1)": lambda: u.matrix_norm(Q(AH), 1)},
+        "one": {"matrix_norm(ord=1)": lambda: u.matrix_norm(Aq, 1),
+                "induced_matrix_norm_1": lambda: u.induced_matrix_norm_1(Aq),
+                "matrix_norm(A^H,ord=np.inf)": lambda: u.matrix_norm(AHq, np.inf)},
+        "inf": {"matrix_norm(ord=np.inf)": lambda: u.matrix_norm(Aq, np.inf),
+                "matrix_norm(ord='inf')": lambda: u.matrix_norm(Aq, "inf"),
+                "induced_matrix_norm_inf": lambda: u.induced_matrix_norm_inf(Aq),
+                "matrix_norm(A^H,ord=1)": lambda: u.matrix_norm(AHq, 1)},
     }
     what = {"one": "max column sum of moduli", "inf": "max row sum of moduli"}
     for nm, table in calls.items():
@@ -366,6 +391,8 @@ def check_one_inf(out, A, ex):
             ok, r = out.call(name, fn)
             if ok:
                 close(out, f"{name}:equals {what[nm]}", _flt(out, name, r), ex[nm], rel)
+            out.true(f"{name}:the caller's matrix is unchanged", ahash(Aq) == hA and ahash(AHq) == hAH,
+                     "the argument was modified in place")
 
 
 def check_definitions(case):
